@@ -354,6 +354,9 @@ Session::ConsumeResult Session::consume(OutputStream& out)
 
     detail::QueueReader reader(ch.queue());
     const detail::QueueReader::ReadResult data = reader.beginRead();
+#if defined(BINLOG_VERIF) && defined(BINLOG_VERIF_POLL_HOOK)
+    BINLOG_VERIF_POLL_HOOK(isClosed, data.size());
+#endif
     if (data.size())
     {
       // consume writerProp entry
